@@ -4,15 +4,13 @@
 //@include prelude_types.rs
 //@include frag_rect_access.rs
 //@include frag_rect_new.rs
+//@include frag_partial_ord.rs
 verus! {
-
-pub open spec fn pc_gt<T: PartialOrd>(a: T, b: T) -> bool { a.partial_cmp_spec(&b) == Some(Ordering::Greater) }
-pub open spec fn pc_lt<T: PartialOrd>(a: T, b: T) -> bool { a.partial_cmp_spec(&b) == Some(Ordering::Less) }
 
 //@fn geo-types/src/private_utils.rs | - | get_min_max | id=C19.V.get_min_max
 //@ret r
 //@spec
-    requires T::obeys_partial_cmp_spec(),
+    requires T::obeys_partial_cmp_spec(), po_dual::<T>(),
     ensures
         // the running (min, max) pair extended by p
         r == (if pc_gt(p, max) { (min, p) } else if pc_lt(p, min) { (p, max) } else { (min, max) }),
@@ -34,14 +32,14 @@ pub proof fn lemma_min_max_is_min_max<T: CoordNum>(p: T, min: T, max: T, r: (T, 
 //@fn geo/src/utils.rs | - | partial_max | id=C19.V.partial_max
 //@ret r
 //@spec
-    requires T::obeys_partial_cmp_spec(),
+    requires T::obeys_partial_cmp_spec(), po_dual::<T>(),
     ensures r == (if pc_gt(a, b) { a } else { b }),
 //@end
 
 //@fn geo/src/utils.rs | - | partial_min | id=C19.V.partial_min
 //@ret r
 //@spec
-    requires T::obeys_partial_cmp_spec(),
+    requires T::obeys_partial_cmp_spec(), po_dual::<T>(),
     ensures r == (if pc_lt(a, b) { a } else { b }),
 //@end
 
@@ -55,10 +53,10 @@ pub proof fn lemma_min_max_is_min_max<T: CoordNum>(p: T, min: T, max: T, r: (T, 
         rmin(r).y.val() == (if rmin(a).y.val() < rmin(b).y.val() { rmin(a).y.val() } else { rmin(b).y.val() }),
         rmax(r).x.val() == (if rmax(a).x.val() > rmax(b).x.val() { rmax(a).x.val() } else { rmax(b).x.val() }),
         rmax(r).y.val() == (if rmax(a).y.val() > rmax(b).y.val() { rmax(a).y.val() } else { rmax(b).y.val() }),
-//@before 1 `Rect::new(`
+//@entry
     proof {
-        T::ax_obeys();
-        T::ax_cmp(a.min.x, b.min.x); T::ax_cmp(a.min.y, b.min.y); T::ax_cmp(a.max.x, b.max.x); T::ax_cmp(a.max.y, b.max.y);
+        T::ax_obeys(); lemma_po_dual::<T>();
+        T::ax_order(); T::ax_cmp(a.min.x, b.min.x); T::ax_cmp(a.min.y, b.min.y); T::ax_cmp(a.max.x, b.max.x); T::ax_cmp(a.max.y, b.max.y);
     }
 //@end
 
